@@ -256,6 +256,8 @@ pub fn kernel_lanczos(b: &SparseMat, verbose: Verbosity) -> Vec<BitVec> {
     // in the (small, possibly null) final block.
     //
     // Compute an actual kernel: compute the kernel of BY as K, return YK.
+    #[cfg(yamaquasi_verif)]
+    verif_hooks::record_y(&y);
     let by = b * &y;
     let mut by_bits = vec![];
     for _ in 0..LSIZE {
@@ -1035,5 +1037,62 @@ fn test_lanczos() {
         if !w.none() {
             eprintln!("Kernel element {i} not in kernel!");
         }
+    }
+}
+
+// Verification hooks (add-only; compiled only with `--cfg yamaquasi_verif`).
+#[cfg(yamaquasi_verif)]
+pub mod verif_hooks {
+    use super::*;
+    use std::cell::RefCell;
+
+    thread_local! {
+        static LANCZOS_Y: RefCell<Option<Vec<Lane>>> = RefCell::new(None);
+    }
+
+    /// Called by `kernel_lanczos` just before the final kernel extraction.
+    pub fn record_y(y: &Block) {
+        LANCZOS_Y.with(|c| *c.borrow_mut() = Some(y.0.clone()));
+    }
+
+    /// The block `Y` recorded by the last `kernel_lanczos` call of this thread.
+    pub fn take_y() -> Option<Vec<Lane>> {
+        LANCZOS_Y.with(|c| c.borrow_mut().take())
+    }
+
+    pub fn block_from_words(w: Vec<Lane>) -> Block {
+        Block(w)
+    }
+
+    pub fn block_words(b: &Block) -> &[Lane] {
+        &b.0
+    }
+
+    pub fn smallmat_from_words(w: [Lane; LSIZE]) -> SmallMat {
+        SmallMat(w)
+    }
+
+    pub fn smallmat_words(m: &SmallMat) -> [Lane; LSIZE] {
+        m.0
+    }
+
+    pub fn block_muladd(out: &mut Block, m: &SmallMat, b: &Block) {
+        out.muladd(m, b)
+    }
+
+    pub fn smallmat_transpose(m: &SmallMat) -> SmallMat {
+        m.transpose()
+    }
+
+    pub fn smallmat_mask(m: &SmallMat, mask: Lane) -> SmallMat {
+        m.mask(mask)
+    }
+
+    pub fn smallmat_pseudoinverse(m: &SmallMat) -> SmallMat {
+        m.pseudoinverse()
+    }
+
+    pub fn smallmat_rank_reverse(m: &SmallMat) -> (usize, Lane) {
+        m.rank_reverse()
     }
 }
